@@ -133,7 +133,7 @@ class Rule(
         for module, name_is_regex in modules:
             module_names.append(module)
             module_creation_fn.append(
-                lambda name: (
+                lambda name, name_is_regex=name_is_regex: (
                     ModuleNameFilter(name=name)
                     if not name_is_regex
                     else ModuleNameRegexFilter(name=name)
